@@ -364,9 +364,16 @@ def s_sets(F, res):
                     g = F.fns[x.callee]
                     dg = mir.DefUse(g)
                     rets = []
-                    for bj, sj, s2 in mir.stmts(g):
-                        if s2["lhs"]["l"] == 0 and not s2["lhs"]["p"] and s2["rv"]["k"] == "agg" and s2["rv"].get("variant") == "Ok":
-                            rets += mir.provenance(g, dg, s2["rv"]["ops"][0])
+                    for y in mir.provenance(g, dg, {"l": 0, "p": []}):
+                        if y.kind == "agg" and y.rv.get("variant") == "Ok" and y.rv.get("ops"):
+                            rets += mir.provenance(g, dg, y.rv["ops"][0])
+                        elif y.kind == "agg" and y.rv.get("variant") == "Err":
+                            continue
+                        elif y.kind == "call" and "from_residual" in (y.callee or ""):
+                            continue
+                        else:
+                            # a helper that hands on `NonEmptySet::from_vec(..)` (or None) as it is
+                            rets.append(y)
                     return bool(rets) and all(via_from_vec(y, depth + 1) for y in rets)
                 return False
             if o and all(via_from_vec(x) for x in o):
